@@ -203,6 +203,34 @@ def oracle(nu, nv, edges):
     return None
 
 
+def known_findings_present(k):
+    """F17: the recursive DFS / alternating-path exploration exceeds CPython's recursion limit on a long augmenting path"""
+    if k.get('key') != 'recursion-limit':
+        return False
+    import sys
+    import pytenet as ptn
+    if sys.getrecursionlimit() > 1100:
+        return False        # the listed input is for the default limit of 1000
+    try:
+        def chain(n):
+            edges = []
+            for i in range(n):
+                if i < n - 1:
+                    edges.append((i, i + 1))
+                edges.append((i, i))
+            return ptn.BipartiteGraph(n, n, edges)
+        ok = len(ptn.HopcroftKarp(chain(900))()) == 900
+        hits = 0
+        for f in (lambda g: ptn.HopcroftKarp(g)(), ptn.minimum_vertex_cover):
+            try:
+                f(chain(1200))
+            except RecursionError:
+                hits += 1
+        return ok and hits == 2
+    except Exception:
+        return False
+
+
 def search(tier, seed, hints, budget_s):
     import time
     t0 = time.time()
